@@ -21,6 +21,8 @@ import (
 	"time"
 )
 
+var errResetMidUpload = errors.New("reset mid upload")
+
 var t0 = time.Now()
 
 // Now is the one monotonic clock shared by backends and clients (ns since process start).
@@ -112,6 +114,9 @@ type Backend struct {
 	InFlight   atomic.Int64 // requests being answered
 	KeepBodies bool         // keep full request bodies in records
 	KeepIf     func(*Record) bool // keep the body of matching requests (decided after the header block)
+	// PreBody is consulted after the header block: reset=true makes the backend read readN raw
+	// body bytes and then reset the connection (a failure in the middle of the upload).
+	PreBody func(*Record) (readN int, reset bool)
 }
 
 var portMu sync.Mutex
@@ -276,6 +281,16 @@ func (b *Backend) serve(c net.Conn, id int64) {
 	br := bufio.NewReaderSize(c, 64<<10)
 	for {
 		rec, err := b.readRequest(br, id)
+		if err == errResetMidUpload {
+			b.mu.Lock()
+			b.seq++
+			rec.Seq = b.seq
+			b.records = append(b.records, rec)
+			b.mu.Unlock()
+			rec.TDone = Now()
+			rst(c)
+			return
+		}
 		if err != nil {
 			return
 		}
@@ -328,6 +343,25 @@ func (b *Backend) readRequest(br *bufio.Reader, id int64) (*Record, error) {
 		}
 	}
 	rec.TRecv = Now()
+	if b.PreBody != nil {
+		if n, reset := b.PreBody(rec); reset {
+			tmp := make([]byte, 16<<10)
+			for n > 0 {
+				m := len(tmp)
+				if m > n {
+					m = n
+				}
+				k, err := br.Read(tmp[:m])
+				rec.BodyLen += k
+				n -= k
+				if err != nil {
+					break
+				}
+			}
+			rec.Outcome = "reset_mid_upload"
+			return rec, errResetMidUpload
+		}
+	}
 	hsh := sha256.New()
 	var keep *bytes.Buffer
 	if b.KeepBodies || (b.KeepIf != nil && b.KeepIf(rec)) {
